@@ -8,7 +8,7 @@ from pyvc.exec import LoopSpec
 from pyvc.lemma import Lemma
 from pyvc.state import OutOfReach
 from . import specs
-from .specs import shr, bits_val, be_val, pow2, isbits, forall_range
+from .specs import forall_view, shr, bits_val, be_val, pow2, isbits, forall_range
 
 T = ('C03', 'C10', 'C12', 'C01', 'C02', 'C15')
 LIB = 'construct.lib.binary'
@@ -69,9 +69,8 @@ def _i2b_ensures(pre, post):
     r = post.result
     w = pre.int('width')
     N = _i2b_N(pre)
-    j = t.var('j!', t.INT)
     return [('length-is-width', t.eq(r.len, w)),
-            ('bit-j-is-twos-complement-digit', forall_range(j, t.ZERO, w, t.eq(r.at(j), t.pymod(shr(N, t.sub(t.sub(w, t.ONE), j)), I(2))), [[r.at(j)]]))]
+            ('bit-j-is-twos-complement-digit', forall_view(r, w, lambda j, e: t.eq(e, t.pymod(shr(N, t.sub(t.sub(w, t.ONE), j)), I(2)))))]
 
 
 def _i2b_inv(L):
